@@ -7,8 +7,8 @@
      reader: byte-order byte (persistent stream state), type word decoding of both flavours, SRID flag, minMemSize checks
              against the remaining bytes, the coordinate reader, POINT EMPTY convention, the constructor checks that make the
              real reader throw (line string with 1 point, circular string with 2 points, unclosed / too short rings,
-             non-contiguous compound curve, empty shell with non-empty holes, readChild<T> class checks), setSRID
-             propagating through collections.
+             non-contiguous compound curve or one with an empty section among >= 2, empty shell with non-empty holes, readChild<T> class checks), setSRID
+             propagating through collections, the nesting limit of 200.
    Not modelled: fixStructure (off by default), non-floating precision models (makePrecise is the identity for the default
    factory), the machine byte order other than little endian. *)
 From Coq Require Import Arith NArith List Bool.
@@ -209,9 +209,8 @@ Inductive err :=
 | EType         (* "Unknown WKB type" *)
 | EChild        (* readChild<T>: "Expected ... but got ..." *)
 | ECtor         (* a geometry constructor threw IllegalArgumentException *)
-| EF14          (* compound curve with >= 2 sections one of which is empty: the real constructor dereferences back() of an empty vector (F14) *)
 | EHex          (* invalid / odd HEX text *)
-| EFuel.
+| EFuel.        (* "Geometry nesting is too deep": more than MAX_NESTING_DEPTH = 200 nested readGeometry calls *)
 Inductive res (A: Type) := Ok (a: A) | Err (e: err).
 Arguments Ok {A} a.
 Arguments Err {A} e.
@@ -292,7 +291,7 @@ Section Rec.
       if minmem n 16 l1 then
         bind (rd_many is_simple (N.to_nat n) b l1) (fun '(gs, b1, l2) =>
         let secs := map to_sec gs in
-        if (2 <=? length secs)%nat && existsb (fun x => seq_empty (sec_seq x)) secs then Err EF14
+        if (2 <=? length secs)%nat && existsb (fun x => seq_empty (sec_seq x)) secs then Err ECtor   (* "Sections of CompoundCurve must not be empty" *)
         else if contiguous (map sec_seq secs) then Ok (GCompound 0 secs, b1, l2) else Err ECtor)
       else Err EMinMem)
     else if code =? 10 then                                                     (* readCurvePolygon *)
@@ -333,10 +332,11 @@ Fixpoint rd (fuel: nat) (b: border) (l: list byte) : res (geom * border * list b
   | S f => rd_geom (rd f) b l
   end.
 
-(* WKBReader::read(buf, size): machine byte order (little endian) until a byte-order byte says otherwise; trailing bytes ignored.
-   Every nested geometry consumes at least 5 bytes, so the length of the input is enough fuel. *)
+(* WKBReader::read(buf, size): machine byte order (little endian) until a byte-order byte says otherwise; trailing bytes ignored;
+   readGeometry refuses to nest deeper than MAX_NESTING_DEPTH = 200 (the fuel is exactly that limit). *)
+Definition MAX_DEPTH : nat := 200.
 Definition wkb_read (l: list byte) : res (geom * list byte) :=
-  match rd (S (length l)) LE l with Ok (g, _, r) => Ok (g, r) | Err e => Err e end.
+  match rd MAX_DEPTH LE l with Ok (g, _, r) => Ok (g, r) | Err e => Err e end.
 Definition hex_read (s: list N) : res (geom * list byte) :=
   match unhex s with Some l => wkb_read l | None => Err EHex end.
 
